@@ -24,6 +24,7 @@ type uop struct {
 	x    int64
 	par  bool // stab: ParallelStabilize
 	fail bool // stab: the sibling node errors in this pass
+	upan bool // stab: the fold's own update function panics once in this pass (implementation only: not an event of the model)
 }
 
 func (o uop) String() string {
@@ -37,6 +38,9 @@ func (o uop) String() string {
 		}
 		if o.fail {
 			s += "!fail"
+		}
+		if o.upan {
+			s += "!update-panics"
 		}
 		return s
 	}
@@ -99,7 +103,15 @@ func runUaf(c ucase) (recs []urec, bad int, what string) {
 	for s, i := range c.inputs {
 		ins[s] = vars[i]
 	}
-	initial, fold, update := foldFns(c.kind)
+	initial, fold, update0 := foldFns(c.kind)
+	panicNext := false
+	update := func(acc, o, n int64) int64 {
+		if panicNext {
+			panicNext = false
+			panic("update function failed")
+		}
+		return update0(acc, o, n)
+	}
 	f := incr.UnorderedArrayFold(g, initial, fold, update, ins...)
 	// the sibling that fails on demand
 	trigger := incr.Var(g, 0)
@@ -138,6 +150,7 @@ func runUaf(c ucase) (recs []urec, bad int, what string) {
 				tick++
 				trigger.Set(tick)
 			}
+			panicNext = o.upan
 			before := incr.ExpertNode(f).NumRecomputes()
 			var err error
 			if o.par {
@@ -148,6 +161,7 @@ func runUaf(c ucase) (recs []urec, bad int, what string) {
 			rec.ok = err == nil
 			rec.ran = incr.ExpertNode(f).NumRecomputes() != before
 			failNext = false
+			panicNext = false
 		}
 		rec.val = f.Value()
 		recs = append(recs, rec)
@@ -252,6 +266,9 @@ func shrinkUaf(c ucase) ucase {
 }
 
 func genUaf(r *hx.Rand, length int) ucase {
+	// one history in four lets the fold's own update function panic in some passes; those
+	// histories are checked on the implementation only
+	upanic := r.Chance(1, 4)
 	c := ucase{kind: "sum"}
 	if r.Chance(1, 2) {
 		c.kind = "sumsq"
@@ -273,7 +290,7 @@ func genUaf(r *hx.Rand, length int) ucase {
 		case k < 45:
 			c.ops = append(c.ops, uop{kind: "set", i: r.Intn(c.nvars), x: int64(r.Range(-20, 20))})
 		case k < 75:
-			c.ops = append(c.ops, uop{kind: "stab", par: r.Chance(1, 3), fail: r.Chance(1, 6)})
+			c.ops = append(c.ops, uop{kind: "stab", par: r.Chance(1, 3), fail: r.Chance(1, 6), upan: upanic && r.Chance(1, 5)})
 		case k < 88:
 			if observed {
 				c.ops = append(c.ops, uop{kind: "unobs"})
@@ -641,7 +658,15 @@ func main() {
 				rep.AddViolation(hx.Violation{Property: "C14", What: swhat, Key: key, Replay: small.replay()})
 			}
 		}
-		uafCases = append(uafCases, c.coq(recs))
+		goOnly := false
+		for _, o := range c.ops {
+			goOnly = goOnly || o.upan
+		}
+		if goOnly {
+			rep.Count("uaf-history-with-panicking-update(not replayed on the model)")
+		} else {
+			uafCases = append(uafCases, c.coq(recs))
+		}
 		if len(rep.Samples) < 2 && k >= len(fixed) {
 			rep.Samples = append(rep.Samples, c.replay())
 		}
